@@ -163,11 +163,15 @@ class Truth:
     truncated = False
     if nmax is not None and len(geos) > nmax:
       truncated = True
-      order = sorted(geos, key=lambda gid: -imp[gid])
-      kth, nxt = imp[order[nmax - 1]], imp[order[nmax]]
-      if abs(kth - nxt) <= RTOL * max(abs(kth), 1e-300):
-        ambiguous = True
-      geos = set(order[:nmax])
+      # must-include geos are never dropped; the remaining places go to the geos with the
+      # highest single-geo impact
+      order = sorted(geos & must, key=lambda gid: -imp[gid]) + sorted(geos - must, key=lambda gid: -imp[gid])
+      keep = max(nmax, len(geos & must))
+      if keep < len(order) and keep > len(geos & must):
+        kth, nxt = imp[order[keep - 1]], imp[order[keep]]
+        if abs(kth - nxt) <= RTOL * max(abs(kth), 1e-300):
+          ambiguous = True
+      geos = set(order[:keep])
     return (None if ambiguous else geos), {'assignable': assignable, 'must': must,
                                            'too_large': too_large, 'over': over,
                                            'truncated': truncated, 'impact': imp}
